@@ -50,8 +50,8 @@ def handlers : List (String → List String → Option String) :=
    RF.Driver.ParseErrs.handle,
    RF.Driver.Lists.handle,
    RF.Driver.StringFmt.handle,
-   RF.Driver.MacroFmt.handle]
-   RF.Driver.MissedSpans.handle]
+   RF.Driver.MacroFmt.handle,
+   RF.Driver.MissedSpans.handle,
    RF.Driver.OptRewrites.handle]
 
 def dispatch (line : String) : String :=
